@@ -717,6 +717,8 @@ func runConcConn(c *simkit.Choice, r *simkit.Rec) {
 	closer := c.Bool(1, 2, simkit.LScen)
 	closeAfter := c.Range(0, 400, simkit.LScen)
 	ncloser := 1 + c.Weighted([]int{2, 2, 1}, simkit.LScen) // concurrent Close calls on the client side
+	implicitHS := c.Bool(1, 3, simkit.LScen)                // no explicit Handshake: first Read/Write calls run it, concurrently
+	statePoller := c.Bool(1, 3, simkit.LScen)
 	closeAfter2 := c.Range(0, 60, simkit.LScen)
 	type wplan struct{ bufs []string }
 	var wp [2][]wplan
@@ -799,9 +801,25 @@ func runConcConn(c *simkit.Choice, r *simkit.Rec) {
 		side := side
 		conn := conns[side]
 		s.Spawn([]string{"cli", "srv"}[side], side, func() {
-			hsErr[side] = conn.Handshake()
-			if hsErr[side] != nil {
-				return
+			if !implicitHS {
+				hsErr[side] = conn.Handshake()
+				if hsErr[side] != nil {
+					return
+				}
+			}
+			if statePoller && side == 0 {
+				// ConnectionState concurrently with the (possibly implicit) handshake and the traffic
+				s.Spawn("cli-state", 0, func() {
+					for k := 0; k < 6; k++ {
+						st := conn.ConnectionState()
+						if st.HandshakeComplete && st.CipherSuite != suite {
+							ci.noteBadState(st.CipherSuite)
+						}
+						for y := 0; y < 40; y++ {
+							simkit.Yield(-24)
+						}
+					}
+				})
 			}
 			wdone := make([]*simkit.Flag, 0, 4)
 			for w := range wp[side] {
@@ -905,6 +923,10 @@ func runConcConn(c *simkit.Choice, r *simkit.Rec) {
 			for _, f := range wdone {
 				s.WaitFlag(f)
 			}
+			if implicitHS {
+				// CloseWrite needs a completed handshake; this is one more concurrent caller of Handshake
+				hsErr[side] = conn.Handshake()
+			}
 			h := slot(side)
 			if h != nil {
 				h.in = connIn{kind: 2}
@@ -930,7 +952,13 @@ func runConcConn(c *simkit.Choice, r *simkit.Rec) {
 		return
 	}
 	site := "gmtls.Conn"
-	if hsErr[0] != nil || hsErr[1] != nil {
+	if ci.badSuite != 0 {
+		r.Violate("result-differs", site+".ConnectionState", fmt.Sprintf("ConnectionState reported HandshakeComplete with suite %04x, negotiated %04x", ci.badSuite, suite))
+		return
+	}
+	if (hsErr[0] != nil || hsErr[1] != nil) && !(closer && implicitHS) {
+		// (with an implicit handshake and a Close at a drawn instant the connection may
+		// legitimately be closed before the handshake has finished)
 		r.Violate("handshake-failed", site, fmt.Sprintf("benign handshake failed under the simulated schedule: %v / %v", hsErr[0], hsErr[1]))
 		return
 	}
@@ -1045,7 +1073,11 @@ type closeInfo struct {
 	closeErrs [4]string
 	lateErr   string
 	lateDone  bool
+	badSuite  uint16
 }
+
+//go:norace
+func (c *closeInfo) noteBadState(s uint16) { c.badSuite = s }
 
 //go:norace
 func (c *closeInfo) closeResult(q int, err error) {
